@@ -169,6 +169,19 @@ def run(chk, repo, pid):
                         found.append(('zip after one-sided filter', c_.lineno, unparse(c_)[:80],
                                       f'`{hit[0]}` was filtered ({unparse(filtered[hit[0]].value)[:50]}) but {others} were not: the '
                                       f'tuples pair an element with the companion of another position'))
+        # memoisation that cannot be right: a cache on a generator function hands the same (exhausted) generator to every later
+        # caller; a cache keyed by a Model merges models that compare equal but differ in what __eq__ ignores (name, dataset)
+        decos = [(dotted(d.func) if isinstance(d, ast.Call) else dotted(d)) or '' for d in getattr(f.node, 'decorator_list', [])]
+        if any(d.split('.')[-1] in ('lru_cache', 'cache', 'cached', 'memoize') for d in decos):
+            if any(isinstance(y, (ast.Yield, ast.YieldFrom)) for y in walk_no_nested(f.node)):
+                found.append(('cached generator', f.node.lineno, f'@{decos[0]} def {f.name}(..): yield',
+                              'the cache stores the generator object: the second call with the same arguments gets it exhausted'))
+            for a_ in f.node.args.args:
+                ann = unparse(a_.annotation) if a_.annotation is not None else ''
+                if ann.split('.')[-1].strip('"\'') in ('Model', 'ModelEntry') or a_.arg in ('model', 'model_entry'):
+                    found.append(('cache keyed by a model', f.node.lineno, f'@{decos[0]} def {f.name}({a_.arg}: {ann or "?"})',
+                                  'Model.__eq__ / __hash__ ignore the name, the description and the dataset: models that differ '
+                                  'only there share one cache entry'))
         for b in ast.walk(f.node):
             if f.name in ('replace', 'create', 'derive') and isinstance(b, ast.BoolOp) and isinstance(b.op, ast.Or) \
                     and isinstance(b.values[0], ast.Call) and isinstance(b.values[0].func, ast.Attribute) \
@@ -186,4 +199,4 @@ def run(chk, repo, pid):
                 chk.violation(Y0, f.module.rel, f.qualname, f'loop-carried flag `{v}`',
                               'tested and cleared in an inner loop, initialised outside the outer loop', line=M.lineno,
                               advisory=True)
-    chk.instance(Y0, f'{nfun} functions of {len(mods)} anchored modules scanned for 15 defect shapes', n=nfun)
+    chk.instance(Y0, f'{nfun} functions of {len(mods)} anchored modules scanned for 17 defect shapes', n=nfun)
